@@ -29,6 +29,8 @@ type AbsEval struct {
 	// evaluated, lets the evaluation go on after the statement with everything
 	// either branch assigns forgotten (the values after it over-approximate both).
 	UnknownIf func(s *ast.IfStmt) bool
+	// Tuple, when set, gives the values of a multi-value call (`a, b := f(x)`).
+	Tuple func(call *ast.CallExpr) ([]any, bool)
 	// Effect, when set, is told of every call made as a statement (a write to a
 	// buffer, say); false stops the evaluation as undecidable.
 	Effect func(call *ast.CallExpr) bool
@@ -283,6 +285,33 @@ stmts:
 						default:
 							a.vars[v] = l * rn
 						}
+					}
+				}
+				continue
+			}
+			if len(x.Rhs) == 1 && len(x.Lhs) > 1 {
+				var vals []any
+				if call, ok := ast.Unparen(x.Rhs[0]).(*ast.CallExpr); ok && a.Tuple != nil {
+					if vs, ok := a.Tuple(call); ok && len(vs) == len(x.Lhs) {
+						vals = vs
+					}
+				}
+				for i, l := range x.Lhs {
+					id, isID := ast.Unparen(l).(*ast.Ident)
+					if !isID {
+						continue
+					}
+					v, _ := a.Info.Defs[id].(*types.Var)
+					if v == nil {
+						v, _ = a.Info.Uses[id].(*types.Var)
+					}
+					if v == nil {
+						continue
+					}
+					if vals != nil {
+						a.vars[v] = vals[i]
+					} else {
+						a.vars[v] = nil
 					}
 				}
 				continue
